@@ -297,6 +297,21 @@ func piecewiseEngine(args []string) error {
 			check(float64(x2)/2, want, fmt.Sprintf("%v", float64(x2)/2))
 		}
 		check(math.NaN(), c.P.NaN, "NaN")
+		// the same table in other units of the argument: knots and query scaled by a power of two (exact in
+		// float64, so the interpolation weight is bit for bit the same) -- segments as narrow as 2e-10 and as wide
+		// as 1e8 are tables like any other
+		for _, unit := range []float64{1.0 / 4294967296.0, 16777216.0} {
+			sx := data.NewArray1DFloat64(len(c.P.Xs))
+			for i, v := range c.P.Xs {
+				sx.Set1(i, v*unit)
+			}
+			xs = sx
+			for k, want := range c.P.Queries {
+				var x2 int
+				fmt.Sscan(k, &x2)
+				check(float64(x2)/2*unit, want, fmt.Sprintf("%v x %v", float64(x2)/2, unit))
+			}
+		}
 		if n%700 == 1 {
 			var cj interface{}
 			json.Unmarshal([]byte(line), &cj)
